@@ -438,6 +438,11 @@ impl<T: ClusterKey> TopologyManager<T> {
             self.node_heartbeats.insert(*peer_id, now);
         }
 
+        // The sender computed its replica map from its own membership view, which need not
+        // include us (we were just added above): derive the assignments from the merged
+        // membership, like every other membership change does
+        self.recalculate_partition_assignments();
+
         info!("updated partition replica assignments from remote information");
     }
 
